@@ -4,6 +4,7 @@ from __future__ import annotations
 
 import ast
 import copy
+import re
 import struct
 from typing import Any, Dict, List, Optional, Tuple  # noqa: F401
 
@@ -424,7 +425,14 @@ def doc_parity(repo: Repo, rep, P: str):
                     if cid in rst_rows:
                         srcs.append(rst_rows[cid])
                     srcs += [e["type"].get("kind") for e in sc.get(cid, [])]
-                    if srcs and any(("string" in str(x)) for x in srcs):
+                    joined = "; ".join(r.stmts)
+                    uncut = re.search(r"(?<![\w.\])])data\.decode\(|\bdata\.(?:r?strip|replace)\([^)]*\)\.decode\(|"
+                                                                                   r"\bdata\[[^\]]*\]\.decode\(", joined)
+                    if srcs and any(("string" in str(x)) for x in srcs) and not uncut:
+                        # the payload reaches decode() through something this rule does not read (a helper, another spelling of the cut)
+                        rep.inconclusive(f"{P}.R2", f"{r.rel}:{r.cls}.process_{cid}", joined[:140],
+                                         f"{cid} is documented as NUL-terminated text; how the handler cuts the payload before decoding is not recognised", r.where)
+                    elif srcs and any(("string" in str(x)) for x in srcs):
                         n += 1
                         rep.violation(f"{P}.R2", f"{r.rel}:{r.cls}.process_{cid}", "; ".join(r.stmts)[:140],
                                       f"{cid} is documented as NUL-terminated text, but the handler decodes the payload without cutting it at the first "
@@ -583,41 +591,48 @@ def positions(repo: Repo, rep, P: str):
     # under loading, attach_module only appends
     proj = repo.cls("Project", module="rv.project")
     from . import c14 as _c14
-    fn = _c14._nm(repo, proj, "attach_module")
-    g = CFG(fn)
+    fn0 = _c14._nm(repo, proj, "attach_module")
     prel = proj.file.rel
-    if _c14._value_tests(fn, set()):
-        rep.inconclusive(f"{P}.R4", f"{prel}:Project.attach_module", "; ".join(sorted(set(_c14._value_tests(fn, set()))))[:160],
+    params = [a.arg for a in fn0.args.args if a.arg != "self"]
+    lp = params[1] if len(params) > 1 else "loading"
+    # the function as it runs with loading=True: tests decided by that (directly or through locals computed from it) are resolved,
+    # code that cannot run is dropped (sa/inline.py: specialize)
+    fn = inline.specialize(fn0, {lp: True})
+    value_tests = set(_c14._value_tests(fn, set()))
+    bad: List[Tuple[ast.stmt, List[str]]] = []
+
+    def scan(stmts, tests: List[str]):
+        for st in stmts:
+            if isinstance(st, ast.If):
+                scan(st.body, tests + [norm(st.test)])
+                scan(st.orelse, tests + [norm(st.test)])
+                continue
+            if isinstance(st, (ast.For, ast.While, ast.With, ast.Try)):
+                for fld in ("body", "orelse", "finalbody"):
+                    scan(getattr(st, fld, []) or [], tests)
+                for h in getattr(st, "handlers", []):
+                    scan(h.body, tests)
+                continue
+            for s_ in ast.walk(st):
+                if isinstance(s_, ast.Subscript) and isinstance(s_.ctx, (ast.Store, ast.Del)) and norm(s_.value) == "self.modules":
+                    bad.append((st, tests))
+                if isinstance(s_, ast.Call) and isinstance(s_.func, ast.Attribute) and norm(s_.func.value) == "self.modules" \
+                        and s_.func.attr in ("insert", "pop", "remove", "sort", "reverse", "clear"):
+                    bad.append((st, tests))
+    scan(fn.body, [])
+    definite = [(st, t) for st, t in bad if not (set(t) & value_tests)]
+    if definite:
+        st = definite[0][0]
+        rep.violation(f"{P}.R4", f"{prel}:Project.attach_module", norm(st)[:160],
+                      "with loading=True a module can be placed other than by append: positions found in the file are rearranged",
+                      f"{prel}:{st.lineno}")
+    elif bad:
+        rep.inconclusive(f"{P}.R4", f"{prel}:Project.attach_module", "; ".join(sorted(set(bad[0][1]) & value_tests))[:160],
                          "attach_module decides on computed values; placement under loading=True not derivable from path conditions",
                          f"{prel}:{fn.lineno}")
-        return
-    params = [a.arg for a in fn.args.args if a.arg != "self"]
-    lp = params[1] if len(params) > 1 else "loading"
-    paths = g.paths(g.entry, [g.exit], max_visits=1, limit=5000, labels_excluded={"exc", "reraise", "nomatch"}) or []
-    bad = None
-    from . import c14
-    from .. import guards
-    not_loading = guards.canon_text(f"not {lp}")
-    for path in paths:
-        # a path on which `not loading` is established is not a loading path
-        known = c14._facts(c14._path_tests(g, path))
-        if not_loading in known:
-            continue
-        for nid, lab in path:
-            node = g.nodes[nid]
-            if node.kind == "stmt" and node.ast is not None:
-                for s in ast.walk(node.ast):
-                    if isinstance(s, ast.Subscript) and isinstance(s.ctx, ast.Store) and norm(s.value) == "self.modules":
-                        bad = node
-                    if isinstance(s, ast.Call) and isinstance(s.func, ast.Attribute) and norm(s.func.value) == "self.modules" \
-                            and s.func.attr in ("insert", "pop", "remove", "sort", "reverse", "clear"):
-                        bad = node
-    if bad is not None:
-        rep.violation(f"{P}.R4", f"{prel}:Project.attach_module", bad.text(),
-                      "with loading=True a module can be placed other than by append: positions found in the file are rearranged",
-                      f"{prel}:{bad.lineno}")
     else:
-        rep.ok(f"{P}.R4", f"{prel}:Project.attach_module", f"{len(paths)} normal paths", "under loading=True the only list mutation is append")
+        rep.ok(f"{P}.R4", f"{prel}:Project.attach_module", "specialised for loading=True: no store / insert / removal on self.modules remains",
+               "under loading=True the only list mutation is append")
     from . import c14
     c14.none_slot_first(repo, rep, P, "R4")
     # project-level SEND = empty position
@@ -644,6 +659,14 @@ def positions(repo: Repo, rep, P: str):
         if id(removing) in inside_trim:
             rep.ok(f"{P}.R4", f"{sv.file.rel}:SunVoxReader.process_end_of_file", norm(removing)[:80],
                    "only trailing empty positions are removed")
+        elif (isinstance(removing, ast.Call) and removing.func.attr == "pop" and [norm(a) for a in removing.args] in ([], ["-1"])) or \
+                (isinstance(removing, ast.Delete) and all(isinstance(t, ast.Subscript) and (norm(t.slice) == "-1" or (
+                    isinstance(t.slice, ast.Slice) and t.slice.upper is None and t.slice.step is None and t.slice.lower is not None
+                    and norm(t.slice.lower) not in ("0",))) for t in removing.targets)):
+            # an edit at the tail of the list whose extent this rule does not read
+            rep.inconclusive(f"{P}.R4", f"{sv.file.rel}:SunVoxReader.process_end_of_file", norm(removing)[:120],
+                             "positions are removed from the end of the module list; that only trailing empty positions go is not recognised",
+                             f"{sv.file.rel}:{removing.lineno}")
         else:
             rep.violation(f"{P}.R4", f"{sv.file.rel}:SunVoxReader.process_end_of_file", norm(removing)[:120],
                           "module positions are removed/rearranged at end of file other than by dropping trailing empty positions",
@@ -795,7 +818,39 @@ def trailing_none_trims(fn: ast.FunctionDef, table: str = "self.object.modules")
                     dels = [x for x in body[i + 1:] if isinstance(x, ast.Delete) and [norm(t) for t in x.targets] == [f"{table}[{v}:]"]]
                     if init and dels:
                         out.extend([st, dels[0]])
+        # k = sum(1 for _ in takewhile(lambda m: m is None, reversed(T)))  /  len(list(takewhile(…)));   del T[len(T) - k:]
+        if isinstance(st, ast.Delete) and len(st.targets) == 1 and isinstance(st.targets[0], ast.Subscript) and norm(st.targets[0].value) == table \
+                and isinstance(st.targets[0].slice, ast.Slice) and st.targets[0].slice.upper is None and st.targets[0].slice.step is None:
+            lo = st.targets[0].slice.lower
+            if isinstance(lo, ast.BinOp) and isinstance(lo.op, ast.Sub) and norm(lo.left) == f"len({table})" and isinstance(lo.right, ast.Name):
+                v = lo.right.id
+                defs = [x for x in body[:i] if isinstance(x, ast.Assign) and len(x.targets) == 1 and norm(x.targets[0]) == v]
+                stores = [x for x in ast.walk(fn) if isinstance(x, ast.Name) and x.id == v and isinstance(x.ctx, ast.Store)]
+                if len(defs) == 1 and len(stores) == 1 and _counts_trailing_none(defs[0].value, table):
+                    out.append(st)
     return out
+
+
+def _counts_trailing_none(e: ast.expr, table: str) -> bool:
+    """`e` is the number of None entries at the end of `table`: sum(1 for _ in TW) / len(list(TW)) / len(tuple(TW)) with
+    TW = takewhile(lambda m: m is None, reversed(table))."""
+    def is_tw(x: ast.expr) -> bool:
+        if not (isinstance(x, ast.Call) and norm(x.func).split(".")[-1] == "takewhile" and len(x.args) == 2 and not x.keywords):
+            return False
+        pred, seq = x.args
+        if norm(seq) != f"reversed({table})":
+            return False
+        if isinstance(pred, ast.Lambda) and len(pred.args.args) == 1 and not pred.args.defaults:
+            a = pred.args.args[0].arg
+            return norm(pred.body) == f"{a} is None"
+        return False
+    if isinstance(e, ast.Call) and norm(e.func) == "sum" and len(e.args) == 1 and isinstance(e.args[0], (ast.GeneratorExp, ast.ListComp)) \
+            and len(e.args[0].generators) == 1 and not e.args[0].generators[0].ifs and norm(e.args[0].elt) == "1":
+        return is_tw(e.args[0].generators[0].iter)
+    if isinstance(e, ast.Call) and norm(e.func) == "len" and len(e.args) == 1 and isinstance(e.args[0], ast.Call) \
+            and norm(e.args[0].func) in ("list", "tuple") and len(e.args[0].args) == 1:
+        return is_tw(e.args[0].args[0])
+    return False
 
 
 def module_highbyte_fixup(repo: Repo, rep, P: str, rule: str, require_present: bool):
